@@ -7,7 +7,7 @@
 #include "e1.hpp"
 
 namespace {
-bool chem_ref(const Params& P, const Pt& p, std::vector<Expect>& out) {
+bool chem_ref(bool arrhenius, const Params& P, const Pt& p, std::vector<Expect>& out) {
   RJ X = RJ::var(p.c[0], 0);
   Q L = P("L");
   auto ph = [&](const char* a) { return P(a) * PIq * X / L; };
@@ -17,6 +17,7 @@ bool chem_ref(const Params& P, const Pt& p, std::vector<Expect>& out) {
   if (!(rN.v > m && rN2.v > m && T.v > Q(1) / 2)) return false;
   Q M = P("M_N"), Rg = P("R"), th = P("theta_v_N2");
   if (M == 0 || Rg == 0 || th == 0) return false;
+  if (arrhenius && !(Rg > 0 && P("Ea_N") >= 0 && P("Ea_N2") >= 0)) return false;  // exp(+Ea/(R T)) with Ea/(R T) ~ 60..100 and a K_eq of 1e-30 leaves the double range: not a regime anyone can mean
   RJ rho = rN + rN2;
   Q RN = P("R_N"), RN2 = P("R_N2");
   RJ pr = rN * RN * T + rN2 * RN2 * T;
@@ -35,10 +36,21 @@ bool chem_ref(const Params& P, const Pt& p, std::vector<Expect>& out) {
   RJ kfN = P("Cf1_N") * powc(Tv, P("etaf1_N")) * exp(-P("Ea_N") / Rg / Tv);
   RJ kfN2 = P("Cf1_N2") * powc(Tv, P("etaf1_N2")) * exp(-P("Ea_N2") / Rg / Tv);
   RJ rNv = RJ(rN.v), rN2v = RJ(rN2.v); rNv.mv = rN.mv; rN2v.mv = rN2.mv;
-  for (int k = 0; k < e1_callback_count(); k++) {
+  for (int k = (arrhenius ? 4 : 0); k < (arrhenius ? 5 : 4); k++) {
     Q K = e1_callback_ref(k, T.v);
-    if (!(K > Q(1) / 64)) return false;
-    RJ Kj = RJ(K);
+    if (!(arrhenius ? K > 0 : K > Q(1) / 64)) return false;
+    // the callback runs in working precision on the library's T: its value carries the propagated error of T and its own roundoff
+    // (for the tiny Arrhenius-like callback exp(-560/T) alone amplifies one rounding of its argument 40..100 times)
+    RJ Kj;
+    switch (k) {
+      case 0: Kj = RJ(Q(3.75)); break;
+      case 1: Kj = RJ(Q(2.75)) + RJ(Q(0.25)) * Tv; break;
+      case 2: Kj = RJ(Q(0.5)) * powc(Tv, Q(1.5)) * exp(-(RJ(Q(2.5)) / Tv)); break;
+      case 4: Kj = RJ(Q(0.5)) * powc(Tv, Q(1.5)) * exp(-(RJ(Q(560)) / Tv)); break;
+      default: Kj = RJ(Q(1.25)) + RJ(Q(0.5)) * Tv + RJ(Q(0.125)) * Tv * Tv; break;
+    }
+    if (qabs(Kj.v - K) > qabs(K) * Q(1e-30)) { fprintf(stderr, "E1 HARNESS ERROR: callback %d: jet value differs from e1_callback_ref\n", k); exit(2); }
+    if (arrhenius) for (Q v : {kfN.v, kfN2.v, K}) if (!(qabs(v) < Q(1e200)) || (v != 0 && qabs(v) < Q(1e-200))) return false;  // intermediates outside the double range
     RJ cN = rNv / M, cN2 = rN2v / (2 * M);
     RJ rate = (kfN * cN + kfN2 * cN2) * (cN2 - cN * cN / Kj);
     VS w = val(2 * M * rate);
@@ -61,8 +73,16 @@ struct Reg {
       pts.push_back(Pt(0, 0, 0, 0, true));
       return pts;
     };
-    s.reference = chem_ref; s.max_dev_quick = 2; s.max_dev_thorough = 3;
+    s.reference = [](const Params& P, const Pt& p, std::vector<Expect>& out) { return chem_ref(false, P, p, out); }; s.max_dev_quick = 2; s.max_dev_thorough = 3;
     e1_systems().push_back(s);
+    // second base: large activation energies (the regime of real dissociating nitrogen: Ea/(R T) between 15 and 100), temperature
+    // varying by a factor 2 over the lattice, and the caller's K_eq(T) Arrhenius-like and as tiny as the forward rates, so that
+    // k_f/K_eq -- a quotient of two numbers near 1e-25 -- is O(1): whatever treats a small rate as negligible is exposed
+    System h = s; h.name = "euler_chem_1d[arrhenius]"; h.solution = "euler_chem_1d";
+    h.base = [](Params& P) { P.m["T_0"] = dy(9523); P.m["R"] = dy(3174); P.m["T_x"] = dy(3584); P.m["Ea_N2"] = dyround(60 * P.m["R"] * P.m["T_0"]); P.m["Ea_N"] = dyround(19 * P.m["R"] * P.m["T_0"]); };
+    h.points = [](int tier) { std::vector<Pt> pts; const long xs[] = {320, 1104, 2252, -410, 3700, 7000, 1600, 2900}; for (int i = 0; i < (tier ? 8 : 6); i++) pts.push_back(Pt(dy(xs[i]), 0, 0, 0)); return pts; };
+    h.reference = [](const Params& P, const Pt& p, std::vector<Expect>& out) { return chem_ref(true, P, p, out); }; h.max_dev_quick = 1; h.max_dev_thorough = 2;
+    e1_systems().push_back(h);
   }
 } reg;
 }  // namespace
